@@ -56,7 +56,7 @@ CONSTANTS SapNB        \* number of buckets: DATA_CACHE_BUCKETS = 256 in the rea
 
 SapMaxSlot == 64
 (* ---- the corpus of origins, names and addresses the abstract datagrams point into *)
-SapOriginIds == << "- 1 1 IN IP4 h", "- 1 2 IN IP4 h", "- 2 1 IN IP4 h", "- 22 1 IN IP4 h", "alice 2890844526 2890842807 IN IP6 2001:db8::1", "o" >>
+SapOriginIds == << "- 1 1 IN IP4 h", "- 1 2 IN IP4 h", "- 2 1 IN IP4 h", "- 22 1 IN IP4 h", "alice 2890844526 2890842807 IN IP6 2001:db8::1", "o", "- 1 1 IN IP4 ab", "- 1 1 IN IP4 ba" >>
 SapNames == << "N", "Second", "A much longer session name 0123456789 0123456789 0123456789", "", "exactly14chars", "exactly15chars." >>
 SapAddrs == << [f |-> 4, t |-> "239.255.1.1"], [f |-> 4, t |-> "224.2.127.254"], [f |-> 6, t |-> "ff0e::2:7ffe"], [f |-> 6, t |-> "ff02::2:7ffe"] >>
 
